@@ -442,6 +442,12 @@ func (ms *ModbusServer) handleTransport(t transport, clientAddr string, clientRo
 			}
 			resCount	= len(coils)
 
+			// a protocol error is for the server to raise, not for handlers:
+			// treat it like any other non-modbus handler error
+			if err == ErrProtocolError {
+				err = ErrServerDeviceFailure
+			}
+
 			// make sure the handler returned the expected number of items
 			if err == nil && resCount != int(quantity) {
 				ms.logger.Errorf("handler returned %v bools, " +
@@ -496,6 +502,12 @@ func (ms *ModbusServer) handleTransport(t transport, clientAddr string, clientRo
 				IsWrite:    true, // this is a write request
 				Args:       []bool{(req.payload[2] == 0xff)},
 			})
+
+			// a protocol error is for the server to raise, not for handlers:
+			// treat it like any other non-modbus handler error
+			if err == ErrProtocolError {
+				err = ErrServerDeviceFailure
+			}
 
 			if err != nil {
 				break
@@ -564,6 +576,12 @@ func (ms *ModbusServer) handleTransport(t transport, clientAddr string, clientRo
 				Args:       decodeBools(quantity, req.payload[5:]),
 			})
 
+			// a protocol error is for the server to raise, not for handlers:
+			// treat it like any other non-modbus handler error
+			if err == ErrProtocolError {
+				err = ErrServerDeviceFailure
+			}
+
 			if err != nil {
 				break
 			}
@@ -628,6 +646,12 @@ func (ms *ModbusServer) handleTransport(t transport, clientAddr string, clientRo
 			}
 			resCount	= len(regs)
 
+			// a protocol error is for the server to raise, not for handlers:
+			// treat it like any other non-modbus handler error
+			if err == ErrProtocolError {
+				err = ErrServerDeviceFailure
+			}
+
 			// make sure the handler returned the expected number of items
 			if err == nil && resCount != int(quantity) {
 				ms.logger.Errorf("handler returned %v 16-bit values, " +
@@ -677,6 +701,12 @@ func (ms *ModbusServer) handleTransport(t transport, clientAddr string, clientRo
 					IsWrite:    true, // request is a write
 					Args:       []uint16{value},
 				})
+
+			// a protocol error is for the server to raise, not for handlers:
+			// treat it like any other non-modbus handler error
+			if err == ErrProtocolError {
+				err = ErrServerDeviceFailure
+			}
 
 			if err != nil {
 				break
@@ -742,6 +772,12 @@ func (ms *ModbusServer) handleTransport(t transport, clientAddr string, clientRo
 					IsWrite:    true, // this is a write request
 					Args:       bytesToUint16s(BIG_ENDIAN, req.payload[5:]),
 				})
+			// a protocol error is for the server to raise, not for handlers:
+			// treat it like any other non-modbus handler error
+			if err == ErrProtocolError {
+				err = ErrServerDeviceFailure
+			}
+
 			if err != nil {
 				break
 			}
